@@ -1825,6 +1825,8 @@ def _bool_simplify(e):
         if new is not None:
             new = ast.fix_missing_locations(ast.copy_location(new, e))
             return _flatten_bool(new)
+    if isinstance(e, ast.Call) and isinstance(e.func, ast.Name) and e.func.id == "bool" and len(e.args) == 1 and not e.keywords:
+        return _bool_simplify(e.args[0])  # a test asks for the truth value anyway
     if isinstance(e, ast.UnaryOp) and isinstance(e.op, ast.Not):
         return ast.copy_location(ast.UnaryOp(op=ast.Not(), operand=_bool_simplify(e.operand)), e)
     if isinstance(e, ast.BoolOp):
